@@ -542,7 +542,7 @@ func runC05(c *eng.Ctx) {
 	}
 	c.Floor(1)
 	// ---- R14.6 the corrupt-index error reaches setupIndex's identity test unwrapped (else open fails instead of rebuilding)
-	nSent := ruleSentinelIdentity(c, "R14.6", []string{cl + "(*segment).setupIndex"}, "a corrupt index is no longer rebuilt: opening the log fails, or the segment keeps an index that does not describe its log")
+	nSent := ruleSentinelIdentity(c, "R14.6", []string{cl + "(*segment).setupIndex", cl + "(*commitLog).recoverLeaderEpochs"}, "a corrupt index is no longer rebuilt: opening the log fails, or the segment keeps an index that does not describe its log")
 	c.Check(nSent >= 1, "setupIndex tells a corrupt index apart", "", "identity comparison with errIndexCorrupt found", "setupIndex no longer recognises a corrupt index")
 	// ---- R01.12 (shared) Truncate removes exactly the messages at and above the offset
 	c.Rule("R01.12", "K5")
